@@ -7,7 +7,9 @@ props = [json.loads(l) for l in open(os.path.join(V, "properties.jsonl"))]
 TECH = "TLA+ spec model-checked with TLC; TLC-generated behaviours replayed into the implementation"
 STREAM_NOTE = ("Trusted: TLC, the transcription of the stream documentation into Streams.tla, the replay harness; numeric agreement is "
                "decided in the exact dyadic domain (sample values, gains, ticks are small dyadic rationals; tolerance 2^-16 of the "
-               "largest magnitude in the behaviour); absolute accuracy on arbitrary non-dyadic floats is not decided by this check.")
+               "largest magnitude in the behaviour); on arbitrary floats and odd-nanosecond intervals the recorded traces carry, per output, "
+               "the error against an f64 evaluation of the textbook formula by the recorder and a bound of n/3+3 f32 epsilons of the magnitudes "
+               "involved, which TLC compares (StreamsTrace.tla); that bound is the check's reading of 'up to rounding'.")
 TECH0 = "TLA+ spec model-checked with TLC; TLC-generated behaviours replayed into the implementation"
 DEV_NOTE = ("Trusted: TLC, the transcription of the device rules into Devices.tla, the replay harness (real terminals and devices are "
             "built per behaviour and every terminal is read after every action); timestamps are ranks mapped monotonically to i64; "
@@ -29,7 +31,9 @@ CLAIMS = {
          "generates the behaviours of ten specification modules once per value of DimCheck; harness binaries built as {std, alloc+libm, "
          "alloc+micromath} x {checking in, out} replay them, each against the specification instance of its configuration (so all configurations "
          "agree with each other wherever DimCheck does not matter), ill-dimensioned unit-grid cases must not panic or be rejected when checking "
-         "is compiled out, and conversions whose exact result has a fractional nanosecond are compared between the configurations directly.",
+         "is compiled out, and conversions whose exact result has a fractional nanosecond are compared between the configurations directly. "
+         "A battery of seeded programs over arbitrary (non-dyadic) floats is executed in every configuration and the raw bits of all results "
+         "are compared between configurations (no power function involved).",
     note="Trusted: TLC, the specifications, the harness. The power function is configuration-supplied: exact under std, 4 ulps under libm "
          "(exponent stream), not compared under micromath. The harness links std; rrtk is no_std + alloc in the libm / micromath builds.",
     technique=TECH),
@@ -47,14 +51,17 @@ CLAIMS = {
          "TimeGetterFromGetter; TLC checks the bookkeeping invariant and the action laws (forward only present values while following; each "
          "constructor maps the chosen instant to the chosen history time) on every sequence up to the bound and random sequences of 40; all "
          "are replayed on the trait's provided methods (probe settable), on the crate's ConstantGetter and on real adapters under affine "
-         "clock maps reaching the i64 limits.",
+         "clock maps reaching the i64 limits. Devices.tla (family follow) models the own terminals of real devices following getters of state "
+         "and command data (update_terminals before the computation, first error returned, FollowLaw) and is replayed on real devices; "
+         "GetterFromHistory in its six forms is also run over the real MotionProfile of every move of MotionProfile.tla.",
     note="Trusted: TLC, Settable.tla, the harness.", technique=TECH),
  "C20": dict(design_ref="DESIGN.md section 4, C20",
     text="Wrappers.tla models the three device wrappers over a terminal connected to an external terminal; the PID wrapper embeds the CommandPID "
          "machine of PIDMath.tla (the definition checked for C11). TLC checks the action laws (the inner settable receives exactly the data "
          "seen; the encoder writes exactly the getter's present state) on every round sequence up to the bound; behaviours are replayed on the "
          "real wrappers with recording inner objects, and the PID wrapper's motor inputs are compared bit for bit with a real stand-alone "
-         "CommandPID fed what the terminal showed.",
+         "CommandPID fed what the terminal showed, also through rounds in which the data time did not advance (zero interval: the "
+         "specification marks the behaviour poisoned and only the bit-for-bit twin decides).",
     note="Trusted: TLC, Wrappers.tla / PIDMath.tla, the harness.", technique=TECH),
  "C06": dict(design_ref="DESIGN.md section 4, C06",
     text="ProfilePhases.tla defines what the six accessors must agree on as a function of the comparisons of t with 0, t1, t2, t3 and of the "
@@ -68,9 +75,11 @@ CLAIMS = {
          "pattern of the acceleration, continuity, start / end values, the speed limit, position = integral of velocity, negation symmetry and "
          "acceptance of long moves; every move (1332 quick) is built on the real MotionProfile under 5 tick / scale concretisations and compared "
          "at every half tick, and the negated request must give exactly negated outputs. Zero-displacement moves violate the negation clause "
-         "(known finding).",
-    note="Trusted: TLC, MotionProfile.tla, the harness. Exact dyadic domain only; the f32 rounding-tolerance clause on arbitrary arguments is not decided.",
-    technique=TECH),
+         "(known finding). In the other direction profiles built from random arguments of the whole stated range are logged (ordered f32 keys; "
+         "recorder-computed error and bound for the clauses that need real arithmetic) and validated by TLC against ProfileNumTrace.tla.",
+    note="Trusted: TLC, MotionProfile.tla, ProfileNumTrace.tla, the harness. On arbitrary arguments the tolerance is 8 (velocity) / 16 (position) "
+         "f32 epsilons of max(|x|, v t3, a t3^2); the integral relation is checked there only through continuity and arrival.",
+    technique="TLA+ spec model-checked with TLC; spec cases replayed into the implementation and implementation traces validated by TLC"),
  "C01": dict(design_ref="DESIGN.md section 4, C01",
     text="Units.tla transcribes the three implementation tables (which operator forms exist between Quantity, bare Unit, Time and "
          "DimensionlessInteger, their result unit, when they panic), the grammar of the 49 named constants and the PositionDerivative / "
@@ -120,8 +129,12 @@ CLAIMS = {
     text="TLC explores the complete connect/disconnect graph for 2..6 terminals (76 matchings at 6) with the invariant Matching and the "
          "action property ConnectLaw, and emits every matching x every operation (and pairs of operations) plus, for 2-3 terminals, every "
          "presence/timestamp pattern of own states and commands; each is replayed on real terminals, all three reads compared, a panic "
-         "being a mismatch.",
-    note=DEV_NOTE, technique=TECH),
+         "being a mismatch. TerminalLinksProof.tla proves with TLAPS, for any number of terminals, that connect / disconnect keep the links a "
+         "symmetric partial matching; ConnectBorrow.tla models connect at the level of RefCell borrows (no 'already borrowed' panic; the "
+         "pre-fix step order must reach it); random operation sequences on six real terminals with arbitrary values are recorded and "
+         "validated by TLC against DevicesTrace.tla, which infers the private links with the same link algebra.",
+    note=DEV_NOTE + " TLAPS back ends (SMT, Zenon, Isabelle) are trusted for the unbounded statement about the specification.",
+    technique="TLA+ spec model-checked with TLC (and proved with TLAPS for any number of terminals); spec behaviours replayed into the implementation and implementation traces validated by TLC"),
  "C13": dict(design_ref="DESIGN.md section 4, C13",
     text="TLC checks on Devices.tla the action property RelayLaw (after an update every terminal of an inverter / gear train / axle reads "
          "the newest command present before it, mapped from the issuing to the reading side) and the invariant ChainLaw (chains of 1..3 "
@@ -133,18 +146,18 @@ CLAIMS = {
          "samples since the last absent/error event (PIDRef) for every history up to the bound and random histories up to 64 events; "
          "each behaviour is replayed into the real PIDControllerStream and into the same controller assembled from the crate's primitive "
          "streams, under several base times (shift invariance), tick lengths (1/512 s .. 64 s) and power-of-two value scalings.",
-    note=STREAM_NOTE, technique=TECH),
+    note=STREAM_NOTE, technique="TLA+ spec model-checked with TLC; spec behaviours replayed into the implementation and implementation traces validated by TLC"),
  "C10": dict(design_ref="DESIGN.md section 4, C10",
     text="TLC checks on Streams.tla that the integral, derivative and the three to-state machines equal the history-defined trapezoid "
          "sums / difference quotients (IntegralRef, DerivativeRef, ToStateRef) with non-uniform intervals; behaviours (including the 7x7 "
          "unit grid and the unit-assertion panics) are replayed into the real streams under several bases, ticks and scalings.",
-    note=STREAM_NOTE, technique=TECH),
+    note=STREAM_NOTE, technique="TLA+ spec model-checked with TLC; spec behaviours replayed into the implementation and implementation traces validated by TLC"),
  "C11": dict(design_ref="DESIGN.md section 4, C11",
     text="TLC checks on Streams.tla (machine CmdPID) that the staged update equals the closed forms (PID law on the run, its trapezoid "
          "integral, the integral of that; absent for exactly 0/1/2 samples) and the set/reset rules, for all histories over {sample, absent, "
          "two errors, set same/other kind/other value} up to the bound plus random long ones; replayed into the real CommandPID with a real "
          "reset twin constructed with the command in effect.",
-    note=STREAM_NOTE, technique=TECH),
+    note=STREAM_NOTE, technique="TLA+ spec model-checked with TLC; spec behaviours replayed into the implementation and implementation traces validated by TLC"),
  "C12": dict(design_ref="DESIGN.md section 4, C12",
     text="TLC checks on Streams.tla (EWMA, moving average) queue non-emptiness, retained-window, non-negative weights summing to the window, "
          "convexity, first-sample and constant-input laws; behaviours with repeated timestamps, short and long windows are replayed into the "
@@ -156,7 +169,10 @@ CLAIMS = {
     text="TLC checks spec/Streams.tla (14 stream machines; laws NoStaleError, FreezeLaw, ResetTwin, SkipAbsentTwin and the "
          "closed-form references) on every history up to the bound and on random long histories; every emitted behaviour is "
          "replayed into the real streams under several time/value concretisations, comparing update()'s result, 1-3 get() calls, "
-         "a freshly constructed real twin restarted at each reset event and a twin that never sees absent samples.",
+         "a freshly constructed real twin restarted at each reset event and a twin that never sees absent samples. StreamShapes.tla is "
+         "the value-free abstraction (a refinement mapping of the machines, checked by TLC); StreamShapesProof.tla proves with TLAPS for "
+         "histories of any length that no stale error is shown and that a reset forgets the past; traces of random histories (8..64 events, "
+         "arbitrary floats) recorded from the real streams are validated by TLC against StreamsTrace.tla.",
     note="Trusted: TLC, the transcription of each stream's documented reset class into Streams.tla, the replay harness; numeric "
          "agreement is decided in the exact dyadic domain (tolerance 2^-16 of the largest magnitude in the behaviour).",
     technique=TECH),
